@@ -226,12 +226,27 @@ func isolate(t *tm.Type, v tm.Val) string {
 	return ""
 }
 
+var u24Probe struct {
+	done, defect bool
+}
+
+// uint24OffsetDefect probes the one shape that names the defect: struct{A uint8; B uint24} on 07 010203.
+func uint24OffsetDefect() bool {
+	if !u24Probe.done {
+		t := tm.Struct(tm.F("A", tm.U(1)), tm.F("B", tm.U(3)))
+		d := implUnmarshal(t, false, []byte{7, 1, 2, 3})
+		u24Probe.done = true
+		u24Probe.defect = d.err == nil && d.panic == nil && len(d.v.Items) == 2 && d.v.Items[1].Num != 0x010203
+	}
+	return u24Probe.defect
+}
+
 func valueFingerprint(t *tm.Type, want, got tm.Val) string {
 	l, ok := tm.FirstDiff(t, want, got)
 	if !ok {
 		return "wrong-value:unlocated"
 	}
-	if l.T.K == "u" && l.T.W == 3 && l.Off > 0 {
+	if l.T.K == "u" && l.T.W == 3 && l.Off > 0 && uint24OffsetDefect() {
 		return "uint24-not-at-offset-0"
 	}
 	at := "offset-0"
